@@ -226,3 +226,44 @@ def once_sessions(rep, n):
         done += 1
     rep.coverage.setdefault("families", {})["c03-once"] = {"cases": done}
     rep.coverage["evaluations"] = rep.coverage.get("evaluations", 0) + done
+
+
+RETRY_STORY = (":: Start\n~ gold = 100\n~ ledger = []\n~ offers = [3, 9, 5]\n~ rate = 2\n~ tickets = ['a', 'b', 'c']\nDesk.\n+ [block] -> Block\n+ [stmt] -> Stmt\n+ [gen] -> Gen\n\n"
+               ":: Block\n@py:\ngold -= 10\nledger.append('fee')\nbest = max(offers, key=lambda o: o * rate)\n@endpy\nBest {best} gold {gold}\n+ [back] -> Start2\n\n"
+               ":: Stmt\n~ picked = [tickets.pop(0), max(offers, key=lambda o: o * rate)]\nPicked {picked}\n+ [back] -> Start2\n\n"
+               ":: Gen\n@py:\ngold -= 7\ntotal = sum(o * rate for o in offers)\n@endpy\nTotal {total} gold {gold}\n+ [back] -> Start2\n\n"
+               ":: Start2\nDesk again {gold} {len(ledger)} {len(tickets)}.\n+ [block] -> Block\n+ [stmt] -> Stmt\n+ [gen] -> Gen\n")
+
+
+def retry_sessions(rep):
+    """a passage's commands run exactly once per entry also when Python's own scoping makes them fail half-way (a lambda or a
+    generator expression that reads a story variable inside exec with separate namespaces): the navigation either fails, or
+    every effect of the entry happened exactly once - never twice"""
+    from bardic.runtime.engine import BardEngine
+    story = corr_play.compile_source(RETRY_STORY)
+    n = 0
+    for picks in ([0], [1], [2], [0, 0, 0], [1, 0, 1], [2, 0, 2, 0, 0]):
+        with quiet():
+            e = BardEngine(copy.deepcopy(story))
+            for k, p in enumerate(picks):
+                before = {"gold": e.state["gold"], "ledger": len(e.state["ledger"]), "tickets": len(e.state["tickets"])}
+                ch = e.current().choices
+                tgt = ch[p % len(ch)]["target"]
+                try:
+                    e.choose(p % len(ch))
+                    ok = True
+                except (RuntimeError, ValueError):
+                    ok = False
+                after = {"gold": e.state["gold"], "ledger": len(e.state["ledger"]), "tickets": len(e.state["tickets"])}
+                eff = {"Block": {"gold": -10, "ledger": 1, "tickets": 0}, "Stmt": {"gold": 0, "ledger": 0, "tickets": -1},
+                       "Gen": {"gold": -7, "ledger": 0, "tickets": 0}}.get(tgt, {"gold": 0, "ledger": 0, "tickets": 0})
+                delta = {k_: after[k_] - before[k_] for k_ in after}
+                n += 1
+                twice = any(abs(delta[k_]) > abs(eff[k_]) for k_ in eff)
+                if twice or (ok and delta != eff):
+                    rep.violations.append({"cls": None, "family": "c03-retry", "source": RETRY_STORY, "picks": picks[:k + 1],
+                                           "what": (f"entering {tgt} ({'returned' if ok else 'raised'}) changed gold / ledger / tickets by {delta}; one run of its commands "
+                                                    f"changes them by {eff} (a command ran {'twice' if twice else 'a wrong number of times'})")})
+                    break
+    rep.coverage.setdefault("families", {})["c03-retry"] = {"entries": n}
+    rep.coverage["evaluations"] = rep.coverage.get("evaluations", 0) + n
